@@ -33,14 +33,31 @@ UNITS = [
          functions=["od_ec_enc_normalize"], min_obligations=40, cover_functions=[], malloc_may_fail=True,
          kind="bounded", bound="pre-carry buffer of at most 4 entries before growth; allocation may fail",
          what="growth path of the pre-carry buffer: writes in bounds after realloc, failure reported"),
+    Unit(uid="U25.4.roundtrip_bool", prop="C25", harness=H, entry="h_roundtrip", mode="plain", defines=["U25_RT", "RT_K=2"],
+         functions=["svt_od_ec_enc_init", "svt_od_ec_encode_bool_q15", "od_ec_enc_normalize", "svt_od_ec_enc_done",
+                    "od_ec_dec_init", "od_ec_dec_refill", "od_ec_decode_bool_q15"],
+         unwind=20, min_obligations=100, cover_functions=[], timeout=900, mem_gb=16, backend="cadical", native=False,
+         kind="bounded", bound="sequences of 2 booleans, every probability 0 < f < 32768 each",
+         what="END-TO-END on the real writer and reader: init, code 2 booleans, flush (final bits, carry propagation), "
+              "reader init / refill / padding past the end, decode 2 booleans: each decoded value equals the coded one",
+         assumptions=["buffer growth not exercised: realloc is replaced by an assertion that it is never reached with the "
+                      "16-byte initial buffers (holds; growth is U25.3.grow)"]),
+    Unit(uid="U25.4.roundtrip_cdf", prop="C25", harness=H, entry="h_roundtrip_cdf", mode="plain", defines=["U25_RT", "RT_K=1", "RT_N=16"],
+         functions=["svt_od_ec_encode_cdf_q15", "svt_od_ec_encode_bool_q15", "od_ec_enc_normalize", "svt_od_ec_enc_done",
+                    "od_ec_dec_init", "od_ec_dec_refill", "od_ec_decode_cdf_q15", "od_ec_decode_bool_q15"],
+         unwind=20, min_obligations=100, cover_functions=[], timeout=900, mem_gb=16, backend="cadical", native=False,
+         kind="bounded", bound="one symbol from an arbitrary valid table of 2..16 symbols followed by one boolean",
+         what="END-TO-END: a symbol (any alphabet 2..16, any valid inverse CDF) then a boolean through the real writer, "
+              "flush, real reader: both come back",
+         assumptions=["buffer growth not exercised (asserted unreachable)"]),
 ]
 
 META = {"C25": {
     "level": "proof",
     "explanation": "Per-step lemmas over the real encoder and decoder for all inputs: identical adaptation, range-split "
                    "agreement for symbols (alphabets 2..16) and booleans, exact value conservation and bit accounting "
-                   "of the encoder's renormalisation. Whole-sequence round trip (carry propagation across bytes end "
-                   "to end) is only a bounded unit.",
+                   "of the encoder's renormalisation; plus END-TO-END round trips of short sequences (2 booleans; symbol + "
+                   "boolean) through init, flush with carry propagation, reader init / refill.",
     "not_covered": ["simulation between encoder (low, pre-carry bytes) and decoder (dif, bytes read) over unbounded "
                     "sequences", "the aom_write_symbol / svt_read_symbol wrappers' buffer management"],
 }}
